@@ -631,13 +631,14 @@ int main() {
         } else if (!strcmp(cmd, "ROUGH")) {
             // ROUGH lo hi k : every multiset of k (3 or 4) primes p1 <= ... <= pk in [lo, hi): find_prime_factor(p1*...*pk) must be one of them
             // (numbers with three or more prime factors beyond the trial-division table are where Pollard's rho can return a COMPOSITE divisor)
-            if (sscanf(line, "%*s %llu %llu %llu", &a, &b, &c) != 3 || b <= a || c < 3 || c > 4) { puts("bad"); continue; }
+            ull i0 = 0, i1 = ~0ull;      // optional: range of the index of the smallest prime (to shard a window over requests)
+            if (sscanf(line, "%*s %llu %llu %llu %llu %llu", &a, &b, &c, &i0, &i1) < 3 || b <= a || c < 3 || c > 4) { puts("bad"); continue; }
             std::vector<uint64_t> ps;
             for (uint64_t x = a | 1; x < b; x += 2) { bool pr = x > 2; for (uint64_t q = 3; q * q <= x && pr; q += 2) if (x % q == 0) pr = false; if (pr) ps.push_back(x); }
             ull n = 0, bad = 0, first = 0, fgot = 0, skipped = 0; long u0 = g_ub;
             g_what = "ROUGH";
             size_t m = ps.size();
-            for (size_t i = 0; i < m; ++i) for (size_t j = i; j < m; ++j) for (size_t k = j; k < m; ++k)
+            for (size_t i = (size_t)i0; i < m && i < i1; ++i) for (size_t j = i; j < m; ++j) for (size_t k = j; k < m; ++k)
                 for (size_t l = (c == 4 ? k : m - 1); l < m; ++l) {
                     u128 prod = (u128)ps[i] * ps[j] * ps[k]; if (prod >> 64) { ++skipped; continue; }
                     if (c == 4) { prod *= ps[l]; if (prod >> 64) { ++skipped; continue; } }
@@ -1110,9 +1111,15 @@ def explore(tier, seed, rng, wd, violations):
     for _ in range(6 if tier == "quick" else 120):
         lo = rng.randrange(1300, c3 - 2000)
         rough_lines.append(f"ROUGH {lo} {lo + (200 if tier == 'quick' else 400)} 3")
+    # every product of FOUR primes from the first window beyond the table (a composite rho divisor that is split only once
+    # still has two prime factors): ~6.5 M products below 1300 (quick), ~80 M below 2000 (thorough), sharded by the smallest prime
+    hi4 = 1300 if tier == "quick" else 2000
+    n4 = sum(1 for q in range(543, hi4, 2) if all(q % d for d in range(3, int(q ** 0.5) + 1, 2)))
+    step = 2 if tier == "quick" else 1
+    rough4 = [f"ROUGH 542 {hi4} 4 {i} {min(i + step, n4)}" for i in range(0, n4, step)]
     rough_total = {"n": 0, "factor_bad": 0}
     for ci, (exe, cfg, wc) in enumerate(exes):
-        lines = rough_lines if ci == 0 else rough_lines[:3]
+        lines = rough_lines + rough4 if ci == 0 else rough_lines[:3] + rng.sample(rough4, 4)
         try:
             ans, errs = run_sharded(exe, lines, heavy=lambda l: True, budget=budget)
         except HarnessFailure as ex:
@@ -1132,7 +1139,7 @@ def explore(tier, seed, rng, wd, violations):
             if wc and int(r["ub"]):
                 violations.append({"what": f"unsigned wrap-around inside find_prime_factor during {l}", "class": "oracle-wrap-rough",
                                    "rec": {"kind": "sweep", "segment": l, "config": cfg}})
-    stats["rough_products"] = dict(rough_total, windows=len(rough_lines))
+    stats["rough_products"] = dict(rough_total, windows=len(rough_lines), four_prime_requests=len(rough4), four_prime_window=[542, hi4])
     stats["t_sweep"] = round(time.time() - t0, 1)
     stats["sweep"] = dict(sweep_total, is_prime_below=plimit, find_prime_factor_below=flimit, windows_above=len(sweep_lines) - plimit // seg)
 
